@@ -159,6 +159,31 @@ func initVerifAPI() {
 		"verifLockCount": func(fr *frame, a []value) value {
 			return fr.in.int64v(int64(fr.in.path.lockEvents))
 		},
+		// verifCached(key, build): a concrete fixture built once per worker.  The
+		// heap writes of build() are kept (taken off the undo trail); build must
+		// not branch on symbolic values.  Everything a path later does to the
+		// fixture is undone at the end of the path as usual.
+		"verifCached": func(fr *frame, a []value) value {
+			in := fr.in
+			key := in.concreteStrArg(a[0], "verifCached key")
+			if v, ok := in.cached[key]; ok {
+				return v
+			}
+			t0, d0 := len(in.trail), len(in.path.decs)
+			v := in.call(fr, token.NoPos, a[1], nil)
+			if len(in.path.decs) != d0 {
+				unsupported("verifCached(%q): the fixture builder branched on symbolic values", key)
+			}
+			for i := t0; i < len(in.trail); i++ {
+				in.trail[i] = trailEntry{}
+			}
+			in.trail = in.trail[:t0]
+			if in.cached == nil {
+				in.cached = map[string]value{}
+			}
+			in.cached[key] = v
+			return v
+		},
 		// verifRecursionLimit(n): more than n nested calls from here on is a
 		// stack overflow of the program under test (fatal, not recoverable)
 		"verifRecursionLimit": func(fr *frame, a []value) value {
